@@ -293,8 +293,8 @@ def _val_cmp(op, ty, x, y):
     if ty == BOOL:
         x, y = b2i(x), b2i(y)
     if ty == STR:
-        lt = lambda p, q: z3.StrLT(p, q)  # noqa: E731
-        le = lambda p, q: z3.StrLE(p, q)  # noqa: E731
+        lt = lambda p, q: p < q  # noqa: E731
+        le = lambda p, q: p <= q  # noqa: E731
         return {"<": lt(x, y), "<=": le(x, y), ">": lt(y, x), ">=": le(y, x)}[op]
     return {"<": x < y, "<=": x <= y, ">": x > y, ">=": x >= y}[op]
 
